@@ -210,9 +210,14 @@ inductive Req where
   | deleteRepo (uuid : String)
   deriving Repr
 
-/-- `dvid.StringToUUID`: 32 hexadecimal characters -/
+/-- `dvid.StringToUUID`: 32 hexadecimal characters.  The line protocol writes a server-generated UUID as
+    `g<version id>`; such a name stands for a 32-hex string and is valid as well (it matters when the UUID of a
+    deleted repo's node is assigned again). -/
 def validUUIDString (u : String) : Bool :=
-  u.length == 32 && u.toList.all (fun c => ('0' ≤ c && c ≤ '9') || ('a' ≤ c && c ≤ 'f') || ('A' ≤ c && c ≤ 'F'))
+  (u.length == 32 && u.toList.all (fun c => ('0' ≤ c && c ≤ '9') || ('a' ≤ c && c ≤ 'f') || ('A' ≤ c && c ≤ 'F'))) ||
+  (match u.toList with
+   | 'g' :: d :: ds => (d :: ds).all (fun c => '0' ≤ c && c ≤ '9')
+   | _ => false)
 
 def step (s : State) : Req → State × Resp
   | .newRepo a => newRepo s a
